@@ -267,8 +267,16 @@ type InfoFork struct {
 	Name, Comment                                 []byte
 }
 
+// ShortInfoFork: some clients end the information fork right after the name when there is no comment (they leave out
+// the zero comment size).  When set, Encode writes that form for forks without a comment.
+var ShortInfoFork bool
+
 // Encode: 72 fixed bytes incl. name size, name, comment size, comment.
 func (i InfoFork) Encode() []byte {
+	if ShortInfoFork && len(i.Comment) == 0 {
+		return cat(i.Platform[:], i.Type[:], i.Creator[:], i.Flags[:], i.PlatformFlags[:], i.RSVD[:],
+			i.Create[:], i.Modify[:], be16(i.NameScript), be16(len(i.Name)), i.Name)
+	}
 	return cat(i.Platform[:], i.Type[:], i.Creator[:], i.Flags[:], i.PlatformFlags[:], i.RSVD[:],
 		i.Create[:], i.Modify[:], be16(i.NameScript), be16(len(i.Name)), i.Name, be16(len(i.Comment)), i.Comment)
 }
